@@ -6,7 +6,7 @@ afterwards by the kernel (Tables/D_witnesses.lean: `decide +kernel`, no trust in
 usage: gen_witnesses.py <strs.json> <known_findings.json> <driver> <out.lean>"""
 import sys, json, subprocess, os
 
-KINDS = ['C01', 'C02', 'C06', 'C10', 'C11']
+KINDS = ['C01', 'C02', 'C06', 'C10', 'C11', 'C12']
 
 
 def enc_ops(hist, ix):
